@@ -234,7 +234,8 @@ int main(void)
 	int even = (SL & 1) == 0;
 	int r_lt = be_lt(R, HALF, N, NLEN), s_lt = be_lt(S, HALF, N, NLEN);
 	int r_z = be_iszero(R, HALF), s_z = be_iszero(S, HALF);
-	int gate = sup && even && QL == GLEN && r_lt && s_lt && !s_z;
+	/* FIPS 186-4 6.4.2 step 1: r and s in [1, n-1] (r == 0 was accepted before /repo fix c16d068) */
+	int gate = sup && even && QL == GLEN && r_lt && s_lt && !s_z && !r_z;
 #if CURVESYM
 	ASSUME(!sup);
 #endif
@@ -260,12 +261,12 @@ int main(void)
 #if !TOY_NL
 	/* paths on which all gates passed ended in the probe */
 	CHECK(!gate, "an input passing all gates goes on to the arithmetic");
-	CHECK(res == 0, "odd length / r,s >= n / s == 0 / wrong key length / unsupported curve => 0");
+	CHECK(res == 0, "odd length / r,s >= n / r == 0 / s == 0 / wrong key length / unsupported curve => 0");
 	CHECK(st_calls == 0, "rejected at a gate: no curve operation is run");
 	WITNESS_POINT("some input is rejected at a gate");
 #else
 	if (!gate) {
-		CHECK(res == 0, "odd length / r,s >= n / s == 0 / wrong key length / unsupported curve => 0");
+		CHECK(res == 0, "odd length / r,s >= n / r == 0 / s == 0 / wrong key length / unsupported curve => 0");
 		CHECK(st_calls == 0, "rejected at a gate: no curve operation is run");
 		WITNESS_POINT("some input is rejected at a gate");
 	} else {
